@@ -126,8 +126,17 @@ func (f *MapField) GenReadFrom() (string, error) {
 				l := enc.TLNum(0)
 				{{call .GenTlvNumberDecode "typ"}}
 				{{call .GenTlvNumberDecode "l"}}
-				if typ != {{.M.ValField.TypeNum}} {
-					return nil, enc.ErrFailToParse{TypeNum: {{.M.KeyField.TypeNum}}, Err: enc.ErrUnrecognizedField{TypeNum: typ}}
+				for typ != {{.M.ValField.TypeNum}} {
+					// Skip unrecognized elements between the key and the value
+					if !ignoreCritical && {{.IsCritical}} {
+						return nil, enc.ErrFailToParse{TypeNum: {{.M.KeyField.TypeNum}}, Err: enc.ErrUnrecognizedField{TypeNum: typ}}
+					}
+					err = reader.Skip(int(l))
+					if err != nil {
+						return nil, enc.ErrFailToParse{TypeNum: {{.M.KeyField.TypeNum}}, Err: err}
+					}
+					{{call .GenTlvNumberDecode "typ"}}
+					{{call .GenTlvNumberDecode "l"}}
 				}
 				{{.M.ValField.GenReadFrom}}
 				_ = value
@@ -141,9 +150,11 @@ func (f *MapField) GenReadFrom() (string, error) {
 	g.executeTemplate(templ, struct {
 		M                  *MapField
 		GenTlvNumberDecode func(string) (string, error)
+		IsCritical         string
 	}{
 		M:                  f,
 		GenTlvNumberDecode: GenTlvNumberDecode,
+		IsCritical:         `((typ <= 31) || ((typ & 1) == 1))`,
 	})
 	return g.output()
 }
